@@ -193,5 +193,12 @@ func init() {
 			NotDecided:  "the merge, diff and composition laws themselves (value-level).",
 			Trusted:     commonTrusted, Assumptions: commonAssumptions,
 		},
+		{
+			ID:          "C20",
+			Rules:       []RuleUse{use("R-CMD", "v5/cmd", "legacy/cmd")},
+			Explanation: "Decided for both commands (v5/cmd/json-patch and cmd/json-patch): R-CMD (i) every error-yielding call in the command package (flag parsing, reading a patch file, decoding it, reading stdin, applying a patch) has its error tested at once and the non-nil edge reaches log.Fatal* (exit status 1, message on standard error) before any write to standard output; (ii) the only write to standard output has no fallible call reachable after it — no partial output; (iii) patches[i] is the patch decoded from the i-th -p value, the Apply loop ranges over that slice in order, its document argument is the loop-carried value phi(stdin bytes, previous result), and that value is the sole operand of the constant \"%s\" print; (iv) the file flag rejects missing paths and directories; (v) exit calls occur only on error edges and the std logger is not redirected; (vi) the two commands are identical up to the library import path.",
+			NotDecided:  "behaviour of go-flags itself and of log.Fatalf's exit status (trusted); that the library result is what the property's other clauses say (C01…).",
+			Trusted:     commonTrusted, Assumptions: commonAssumptions,
+		},
 	}
 }
